@@ -1198,12 +1198,10 @@ impl Desc {
 
 fn engine_shape(font: &LFont, script: &str, lang: &str, gsub: bool, gpos: bool, s: &[Gid]) -> (Shaped, Vec<String>) {
     let req = ShapeRequest {
-        script: script.to_string(),
-        lang: lang.to_string(),
         features: FeatureSel::All,
-        coords: vec![],
         gsub,
         gpos,
+        ..ShapeRequest::all(script, lang)
     };
     let r = font.shape(&req, s);
     let out = r
